@@ -146,10 +146,44 @@ class Harness:
     def driver(self, engine: str):
         # one log per execution: the budget and `mark()` are per driver
         self.rec.log = []
+        # generated ids (actor ids, timer keys) are owned by the harness: a fresh sequential generator per execution,
+        # unless a check has installed a generator of its own
+        install_uuid(None, only_if_default=True)
         from .core import LOG
 
         LOG.reset()
         return {"sync": self.sync, "async": self.asyn, "pure": self.pure}[engine]()
+
+
+class UuidShim:
+    """Stands in for the `uuid` module inside the two engines."""
+
+    def __init__(self, gen=None) -> None:
+        self.gen = gen or (lambda n: f"{n:08x}-0000-4000-8000-{n:012x}")
+        self.n = 0
+        self.default = gen is None
+
+    def uuid4(self):
+        self.n += 1
+        return self.gen(self.n)
+
+
+def install_uuid(gen=None, only_if_default: bool = False):
+    """Replaces `uuid` in interpreter / sync_interpreter by a deterministic generator; returns the previous objects."""
+    from xstate_statemachine import interpreter as ai, sync_interpreter as si
+
+    prev = (ai.uuid, si.uuid)
+    if only_if_default and isinstance(si.uuid, UuidShim) and not si.uuid.default:
+        si.uuid.n = 0   # a check's own generator stays, restarted for the new execution
+        return prev
+    ai.uuid = si.uuid = UuidShim(gen)
+    return prev
+
+
+def restore_uuid(prev) -> None:
+    from xstate_statemachine import interpreter as ai, sync_interpreter as si
+
+    ai.uuid, si.uuid = prev
 
 
 class SyncDriver:
